@@ -1910,7 +1910,8 @@ where
                             }
                             // Only send refs announcements if the remote is allowed to know about
                             // the repository. If we don't have the repository, we can't determine
-                            // whether it's private or public, so we don't send anything.
+                            // whether it's private or public, and the announcement is sent as
+                            // part of the history, like it always was.
                             if let AnnouncementMessage::Refs(RefsAnnouncement { rid, .. }) =
                                 &ann.message
                             {
@@ -1920,7 +1921,7 @@ where
                                     .ok()
                                     .flatten()
                                     .map(|doc| doc.is_visible_to(&(*remote).into()))
-                                    .unwrap_or(false);
+                                    .unwrap_or(true);
 
                                 if !visible {
                                     continue;
